@@ -10,7 +10,7 @@ META = {
 
 H = vfcore.VERIF / "harness/material"
 LIBS = ("TFELMaterial", "TFELMath", "TFELUtilities", "TFELException")
-PARTS = {"c25a": (30000, 600000), "c25e": (4000, 60000), "c25b": (2000, 24000)}
+PARTS = {"c25a": (20000, 600000), "c25e": (2400, 60000), "c25b": (1280, 24000)}
 
 
 def build(ctx):
